@@ -60,6 +60,11 @@ def fast_body(name, pids):
         run("git -C /repo checkout -- .")
         for ep, txt in saved.items():
             open(ep, "w").write(txt)
+    meta["caught"] = caught
+    meta.setdefault("our_checks", {})
+    for pid in pids:
+        meta["our_checks"][pid] = {"exit": 1 if caught else 0, "lines": ["re-run with --fast after the checks were strengthened"]}
+    json.dump(meta, open(os.path.join(dst, "meta.json"), "w"), indent=1)
     print("CAUGHT" if caught else "MISSED")
 
 
